@@ -1,0 +1,11 @@
+//go:build verif
+
+package http_api
+
+// VerifX14BinaryUnmarshalJSON runs binaryType.UnmarshalJSON (the base64 field decoder of the HTTP API requests)
+// on raw bytes (verification hook of work package x14log, add-only).
+func VerifX14BinaryUnmarshalJSON(raw []byte) ([]byte, error) {
+	var b binaryType
+	err := b.UnmarshalJSON(raw)
+	return []byte(b), err
+}
